@@ -19,3 +19,12 @@ def mget(model, name, default=None):
                 return v[1:-1]
             return v
     return default
+
+
+import os
+HERE = os.path.dirname(os.path.dirname(os.path.abspath(__file__)))
+
+
+def native_file(rel):
+    """source text of a native (CPython, real lark) check kept under /verif/bounded"""
+    return open(os.path.join(HERE, rel)).read()
